@@ -283,6 +283,7 @@ func TestC03(t *testing.T) {
 	if r.Only < 0 {
 		largeDatabase(t, r, dir)
 		longLivedInstance(t, r, dir)
+		symlinkedDatabase(t, r, dir)
 	}
 
 	// ---- fixtures written by the pinned commit ----
@@ -403,7 +404,7 @@ func TestC03(t *testing.T) {
 			}
 		}
 	}
-	r.Require("opens_of_files_with_other_modes", "restarts_after_io_failure", "restarts_after_concurrent_writes", "histories", "restarts", "restarts_after_acknowledged_mutation", "restarts_after_failed_mutation", "restarts_with_newest_version_deleted", "fixtures", "restarts_of_continued_fixtures", "stale_sibling_files", "restarts_after_audit_failure", "restarts_of_large_databases", "restarts_beside_a_long_lived_instance")
+	r.Require("opens_of_files_with_other_modes", "restarts_after_io_failure", "restarts_after_concurrent_writes", "histories", "restarts", "restarts_after_acknowledged_mutation", "restarts_after_failed_mutation", "restarts_with_newest_version_deleted", "fixtures", "restarts_of_continued_fixtures", "stale_sibling_files", "restarts_after_audit_failure", "restarts_of_large_databases", "restarts_beside_a_long_lived_instance", "restarts_of_symlinked_databases")
 	r.Rule("seeded random histories of 20-30 operations over 3 ordinary names (+ empty and reserved), with a restart (second db.Open of the same path, full-state comparison with the model, per-name next-version probe on a copy, before/after hash+inode+mtime of the file) after EVERY operation; the history continues on the reopened handle half of the time. Plus 6 fixture databases written by the pinned commit. Distinct = (kind of the operation preceding the restart, its outcome class, number of names) and one class per fixture")
 }
 
@@ -513,6 +514,69 @@ func longLivedInstance(t *testing.T, r *evid.Run, dir string) {
 		r.Count("restarts_beside_a_long_lived_instance", 1)
 	}
 	r.Distinct("long-lived instance")
+}
+
+// symlinkedDatabase: the path the server is given is a symbolic link (state directories are often laid out
+// that way), with an absolute or a relative target, while the process's working directory is somewhere else.
+// What is acknowledged through that path is there when the same path is opened again.
+func symlinkedDatabase(t *testing.T, r *evid.Run, dir string) {
+	for li, rel := range []bool{false, true} {
+		sdir := filepath.Join(dir, fmt.Sprintf("symlinked%d", li), "state")
+		os.MkdirAll(sdir, 0o700)
+		target := filepath.Join(sdir, "database.real")
+		link := filepath.Join(sdir, "database")
+		key := realdb.DummyKey("c03-symlink")
+		d0, err := realdb.Open(target, key)
+		if err != nil {
+			t.Error(err)
+			return
+		}
+		su := realdb.Super()
+		m := refmodel.New()
+		first := ops.Op{Kind: ops.Put, Name: "kept", Value: []byte("written before the link existed")}
+		ops.ApplyModel(m, nil, true, first)
+		ops.ApplyReal(d0, su, first)
+		lt := target
+		if rel {
+			lt = "database.real"
+		}
+		if err := os.Symlink(lt, link); err != nil {
+			t.Error(err)
+			return
+		}
+		d, err := realdb.Open(link, key)
+		if err != nil {
+			r.Violation("reopen-fails", -1, fmt.Sprintf("a database reached through a symbolic link (relative target: %t) does not open: %v", rel, err), nil)
+			continue
+		}
+		rng := r.Rand(uint64(626262 + li))
+		cfg := ops.GenCfg{Names: []string{"kept", "x", "y"}, Values: [][]byte{[]byte("one"), []byte("two"), []byte("three")},
+			Weights: map[ops.Kind]int{ops.Put: 8, ops.Act: 3, ops.DelVer: 3, ops.Delete: 1}}
+		for i := 0; i < 25; i++ {
+			op := ops.Gen(rng, m, cfg)
+			want := ops.ApplyModel(m, nil, true, op)
+			got := ops.ApplyReal(d, su, op)
+			if !ops.Agree(want, got) {
+				r.Violation("live-result-differs", -1, fmt.Sprintf("symlinked database, %s: real %s, model %s", op, got, want), nil)
+				return
+			}
+			d2, err := realdb.Open(link, key)
+			r.Eval(1)
+			r.Count("restarts_of_symlinked_databases", 1)
+			if err != nil {
+				r.Violation("reopen-fails", -1, fmt.Sprintf("symlinked database (relative target: %t) after %s: %v", rel, op, err), nil)
+				return
+			}
+			re, err := realdb.Dump(d2)
+			if err != nil || re.Canon() != m.Canon() {
+				r.Violation("restart-state-differs", -1, fmt.Sprintf("a database opened through a symbolic link (relative target: %t; working directory elsewhere): after the acknowledged %s the same path opens with another state (err %v)", rel, op, err), nil)
+				os.Remove("database.real") // (whatever a confused writer may have left in the working directory)
+				return
+			}
+		}
+		os.Remove("database.real")
+		r.Distinct(fmt.Sprintf("symlinked database relative=%t", rel))
+	}
 }
 
 // concurrentWriters: several clients write at the same time; once every call has been acknowledged the
